@@ -34,8 +34,8 @@ ASSUMPTIONS = [
     "refusal = any exception out of sendEncoded / dataReceived; the statement does not name the type",
     "empty deliveries are not generated (transports never deliver b'')",
 ]
-MIN = {"quick": {"evaluations": 300000, "nontrivial": 100000, "outcomes": 6},
-       "thorough": {"evaluations": 1000000, "nontrivial": 300000, "outcomes": 6}}
+MIN = {"quick": {"evaluations": 440000, "nontrivial": 400000, "outcomes": 6},
+       "thorough": {"evaluations": 440000, "nontrivial": 400000, "outcomes": 6}}
 
 LIST, INT, STRING, NEG, FLOAT, LONGINT, LONGNEG, VOCAB = (bytes([0x80 + i]) for i in range(8))
 TYPEBYTES = {"LIST": LIST, "INT": INT, "STRING": STRING, "NEG": NEG, "FLOAT": FLOAT, "LONGINT": LONGINT,
